@@ -356,3 +356,27 @@ def no_permuting_ops(ctx, rule, inst, files, floor_fns, skip=None, only=None):
               "%d functions of %s: no entry-moving list operation outside the confirmed sites" % (nfn, ",".join(sorted(files))),
               "%s: entry i of the list no longer corresponds to entry i of what it was computed from"
               % "; ".join("%s applies %s (%s)" % (b[0], b[1], b[2]) for b in bad[:3]) if bad else "only %d functions found in %s (expected >= %d)" % (nfn, sorted(files), floor_fns))
+
+
+def returned_as_computed(ctx, rule, files, pick, extra=(), floor=1):
+    """For every function of `files` selected by pick(path, leaf): on the E6 value of each non-panicking path the only straight-line in-place
+    changes of the result are appends (push / extend ..) and the operations listed in `extra` (each of which a specific rule of the property
+    accounts for); an entry assigned, dropped or moved after the loops that compute the result is reported.  Changes made inside loops belong
+    to the loop's value and are judged by the function rules."""
+    from .. import e6
+    c = ctx.crate
+    n = 0
+    for path, fn in sorted(c.fns.items()):
+        leaf = path.rsplit("::", 1)[-1]
+        if fn.get("file") not in files or not pick(path, leaf):
+            continue
+        live = [p for p in e6.Exec(c, fn).run_fn() if p.exit is None or p.exit[0] == "return"]
+        if not live:
+            continue
+        tam = sorted({nm for p in live for nm in e6.inplace_changes(p.val if p.exit is None else p.exit[1]) if nm not in extra})
+        n += 1
+        ctx.check(rule, "::".join(path.split("::")[-2:]) + ":returned-as-computed", not tam, "result-changed-in-place-by:" + ",".join(tam), c.loc(fn),
+                  "%d paths: the result is returned as the loops produced it" % len(live),
+                  "%s changes its result in place (%s) after computing it" % (path, tam))
+    if n < floor:
+        ctx.bad(rule, "returned-as-computed:count", "functions-found:%d" % n, ",".join(sorted(files)), "expected at least %d functions" % floor)
